@@ -229,7 +229,7 @@ def run(ctx: core.Ctx):
                 'these cases with short non-dyadic decimal parameters handed over as python float / numpy.float64 / TimeType '
                 '(integers as int / numpy.int64): the exact durations do not depend on the type that carries a value, a '
                 'float of either kind means its shortest decimal representation; typed parameter values in 40% of streams '
-                '(1) and (2) as well. (5) three to five directly nested repetitions over non-constant bodies, optionally separated by levels that run once. Plus all nestings of depth <= 3 over two atoms and a malformed stream. Non-trivial = a '
+                '(1) and (2) as well. (5) three to five directly nested repetitions over non-constant bodies, optionally separated by levels that run once. (6) AtomicMultiChannelPT with an enforced duration that agrees with / contradicts its sub-templates, all but one sub-template dropped; mappings that re-define a time / count parameter by itself. Plus all nestings of depth <= 3 over two atoms and a malformed stream. Non-trivial = a '
                 'program is produced from a tree with more than one node')
     ctx.assumptions = [
         'TimeType.from_float turns a float into the rational of its shortest decimal representation (C14)',
